@@ -202,6 +202,7 @@ func (ex *Exec) runTop(fc *FnCtx) {
 	a0 := ex.fresh("A0", sInt)
 	st.alloc = a0
 	st.heapBound = a0
+	st.baseAlloc = a0
 	st.assume(mk(sBool, "<=", intLit(maxGlobals), a0))
 	names := map[string]tv{}
 	for i, p := range fn.Params {
@@ -380,7 +381,9 @@ func (ex *Exec) modLocationAST(env *SpecEnv, e ast.Expr, refs map[string][]Term,
 			if _, ok := ex.cs.Ghost[id.Name]; ok {
 				a := env.eval(x.Args[0])
 				r := a.T
-				if a.T.So == sIface {
+				if a.IsNil {
+					r = tNull
+				} else if a.T.So == sIface {
 					r = ifacePv(a.T)
 				}
 				add(compGhost(id.Name), r)
